@@ -5,6 +5,7 @@
   itself, macros, blocks included).
 -/
 import TwigProofs.Lemmas.LiftBase
+import TwigProofs.Lemmas.Paths
 namespace Twig
 namespace Lift
 
@@ -50,36 +51,16 @@ theorem renderNode_store (E : Env) (T T' : List (Bytes × List Node)) (hk : Same
     intro a _
     apply bind_congr_ok
     intro name _
-    split
-    · rfl
-    · have hkn := hk name
-      cases h1 : (Env.withTpls E T').tpl? name with
-      | none =>
-        cases h2 : (Env.withTpls E T).tpl? name with
-        | none => rfl
-        | some _ => rw [h1, h2] at hkn; cases hkn
-      | some _ =>
-        cases h2 : (Env.withTpls E T).tpl? name with
-        | none => rw [h1, h2] at hkn; cases hkn
-        | some _ => rfl
+    rw [resolveTpl_congr (E := Env.withTpls E T) (E' := Env.withTpls E T') rfl hk name]
+    rfl
   | .include te names exprs ignoreMissing only sandboxed, st => by
     simp only [renderNode, evalX_env, evalArgs_env]
     apply bind_congr_ok
     intro a _
     apply bind_congr_ok
     intro name _
-    split
-    · rfl
-    · have hkn := hk name
-      cases h1 : (Env.withTpls E T').tpl? name with
-      | none =>
-        cases h2 : (Env.withTpls E T).tpl? name with
-        | none => rfl
-        | some _ => rw [h1, h2] at hkn; cases hkn
-      | some _ =>
-        cases h2 : (Env.withTpls E T).tpl? name with
-        | none => rw [h1, h2] at hkn; cases hkn
-        | some _ => rfl
+    rw [resolveTpl_congr (E := Env.withTpls E T) (E' := Env.withTpls E T') rfl hk name]
+    rfl
   | .macro name ps dn de body, st => rfl
   | .importN te alias, st => by
     simp only [renderNode, evalX_env]
@@ -87,36 +68,16 @@ theorem renderNode_store (E : Env) (T T' : List (Bytes × List Node)) (hk : Same
     intro a _
     apply bind_congr_ok
     intro name _
-    split
-    · rfl
-    · have hkn := hk name
-      cases h1 : (Env.withTpls E T').tpl? name with
-      | none =>
-        cases h2 : (Env.withTpls E T).tpl? name with
-        | none => rfl
-        | some _ => rw [h1, h2] at hkn; cases hkn
-      | some _ =>
-        cases h2 : (Env.withTpls E T).tpl? name with
-        | none => rw [h1, h2] at hkn; cases hkn
-        | some _ => rfl
+    rw [resolveTpl_congr (E := Env.withTpls E T) (E' := Env.withTpls E T') rfl hk name]
+    rfl
   | .fromN te names, st => by
     simp only [renderNode, evalX_env]
     apply bind_congr_ok
     intro a _
     apply bind_congr_ok
     intro name _
-    split
-    · rfl
-    · have hkn := hk name
-      cases h1 : (Env.withTpls E T').tpl? name with
-      | none =>
-        cases h2 : (Env.withTpls E T).tpl? name with
-        | none => rfl
-        | some _ => rw [h1, h2] at hkn; cases hkn
-      | some _ =>
-        cases h2 : (Env.withTpls E T).tpl? name with
-        | none => rw [h1, h2] at hkn; cases hkn
-        | some _ => rfl
+    rw [resolveTpl_congr (E := Env.withTpls E T) (E' := Env.withTpls E T') rfl hk name]
+    rfl
   | .apply filter body, st => by
     simp only [renderNode, applyFilter_env, renderNodes_store E T T' hk go tpl body st]
   | .spaceless _, st => rfl
